@@ -295,6 +295,52 @@ def dcPostAny (P : Parts K) {p m : Nat} (M : Matrix (Fin p) (Fin m) (Cx K)) :
 def dcgainCode (P : Parts K) (L : LTI K) : Bool × Matrix (Fin L.p) (Fin L.m) (IVal K) :=
   dcPost P (call1Cx P L (dcPoint L.dt))
 
+/-! ### a pole test that is not exact, and histories of queries on one object -/
+
+/-- the 1-state fast path with an *approximate* pole test `near x a` (for instance
+`np.isclose(x, a)`) in place of `x == a` — not what the code does; `C04.horner1Near_changes`:
+every point that passes the test without being the pole loses its finite value. -/
+def horner1Near (near : K → K → Bool) {p m : Nat} (G : SS (Fin 1) (Fin m) (Fin p) K) (x : K) :
+    Matrix (Fin p) (Fin m) (IVal K) :=
+  if near x (G.A 0 0) then Matrix.of fun _ _ => poleVal (zeroTest G (G.A 0 0))
+  else Matrix.of fun i j => .fin (G.C i 0 / (x - G.A 0 0) * G.B 0 j + G.D i j)
+
+/-- an object that is asked a sequence of queries: a step maps the data the object holds and a
+query to the data it holds afterwards and the answer. -/
+def runHist {S Q A : Type} (step : S → Q → S × A) : S → List Q → S × List A
+  | s, [] => (s, [])
+  | s, q :: qs => ((runHist step (step s q).1 qs).1, (step s q).2 :: (runHist step (step s q).1 qs).2)
+
+/-- a query that only observes (`sys(x)`, `frequency_response`, `dcgain`, `poles`, `zeros` are
+specified to be of this kind): the answer is a function of the data, the data stay what they
+were. -/
+def observe {S Q A : Type} (ans : S → Q → A) (s : S) (q : Q) : S × A := (s, ans s q)
+
+/-- a step that is not an observer: queries selected by `insp` (an "inspection", e.g. `poles()`
+handing `A` to LAPACK with `overwrite_a=True`) answer correctly but leave the data transformed
+by `f` (`C04.hist_inplace_changes`). -/
+def stepInplace {S Q A : Type} (f : S → S) (insp : Q → Bool) (ans : S → Q → A) (s : S) (q : Q) :
+    S × A :=
+  (if insp q then f s else s, ans s q)
+
+/-- the value queries of this property. -/
+inductive Query (K : Type) where
+  | call (xs : List K)
+  | freq (ws : List ℚ)
+  | dc
+
+/-- the model's answer to a value query: the grid (frequency responses only) and the values. -/
+def answer (E : Env K) (L : LTI K) :
+    Query K → List ℚ × List (Matrix (Fin L.p) (Fin L.m) (IVal K))
+  | .call xs => ([], call L xs)
+  | .freq ws => freqResp E L ws
+  | .dc => ([], [dcgain L])
+
+/-- the answer packed with the system it belongs to (the sizes depend on the system). -/
+def answerOf (E : Env K) (L : LTI K) (q : Query K) :
+    Σ L : LTI K, List ℚ × List (Matrix (Fin L.p) (Fin L.m) (IVal K)) :=
+  ⟨L, answer E L q⟩
+
 /-! ### poles and zeros: what is handed to the root finders -/
 
 /-- `StateSpace.poles()`: `eigvals(self.A)` when there are states, otherwise the empty array. -/
